@@ -2,8 +2,8 @@
 From Coq Require Import Reals List String Bool.
 From V.base Require Import Num.
 From V.gen Require Import Distributions.
-From V.model Require Import DistHand Conditional.
-From V.proofs Require Import DistProofs DistDocProofs CondProofs.
+From V.model Require Import DistHand Conditional ScipyDist.
+From V.proofs Require Import DistProofs DistDocProofs CondProofs ScipyDistProofs.
 Import ListNotations.
 Local Open Scope R_scope.
 Local Open Scope string_scope.
@@ -409,6 +409,42 @@ Theorem C05_cdf_icdf :
          (sts {| c_family := fam; c_method := "ppf"; c_params := ps |} p) = p.
 Proof. exact (@cdf_icdf_roundtrip). Qed.
 
+(* ScipyDistribution subclasses (hand model, tied by correspondence): positional explicit parameters == instance storing the merged values *)
+Theorem C05_SD_override_positional :
+  forall (T : Type) (names : list string) (stored : list T) (args : list (option T)),
+       sd_params names stored args [] = sd_params names (merge_pos stored args) [] [].
+Proof. exact (@sd_override_positional). Qed.
+
+(* ... an explicit positional value (0 included) is used at its position *)
+Theorem C05_SD_positional_value :
+  forall (T : Type) (stored : list T) (args : list (option T)) (i : nat) (v d : T),
+       nth_error args i = Some (Some v) ->
+       (i < Datatypes.length stored)%nat -> nth i (merge_pos stored args) d = v.
+Proof. exact (@sd_positional_value). Qed.
+
+(* ... a positional None keeps the stored value *)
+Theorem C05_SD_positional_none_keeps :
+  forall (T : Type) (stored : list T) (args : list (option T)) (i : nat) (d : T),
+       nth_error args i = Some None ->
+       (i < Datatypes.length stored)%nat -> nth i (merge_pos stored args) d = nth i stored d.
+Proof. exact (@sd_positional_none_keeps). Qed.
+
+(* ... a keyword sets exactly the named parameter *)
+Theorem C05_SD_keyword_single :
+  forall (T : Type) (names : list string) (stored : list T) (k : string) (v : T) (i : nat) (d : T),
+       index_of k names = Some i ->
+       (i < Datatypes.length stored)%nat ->
+       exists r : list T,
+         sd_params names stored [] [(k, v)] = Ok r /\
+         nth i r d = v /\ (forall j : nat, j <> i -> nth j r d = nth j stored d).
+Proof. exact (@sd_keyword_single). Qed.
+
+(* ... an unknown parameter name raises ValueError *)
+Theorem C05_SD_keyword_unknown :
+  forall (T : Type) (names : list string) (stored : list T) (k : string) (v : T),
+       index_of k names = None -> sd_params names stored [] [(k, v)] = Err "ValueError".
+Proof. exact (@sd_keyword_unknown). Qed.
+
 (* non-vacuity: a concrete instance and override *)
 Example C05_nonvacuous :
   c_params (NormalDistribution_cdf (NormalDistribution_init 0 1 None None) (Some 3) (Some 2)) = [3; 2] /\
@@ -442,3 +478,8 @@ Print Assumptions C05_EW_pdf_zero_outside.
 Print Assumptions C05_EW_pdf_inside.
 Print Assumptions C05_icdf_cdf.
 Print Assumptions C05_cdf_icdf.
+Print Assumptions C05_SD_override_positional.
+Print Assumptions C05_SD_positional_value.
+Print Assumptions C05_SD_positional_none_keeps.
+Print Assumptions C05_SD_keyword_single.
+Print Assumptions C05_SD_keyword_unknown.
